@@ -289,10 +289,31 @@ func c13R3(p *core.Prog, r *core.Report) {
 	info := syn.Pkg.TypesInfo
 	k := 0
 	ast.Inspect(syn.Decl.Body, func(n ast.Node) bool {
-		is, ok := n.(*ast.IfStmt)
-		if !ok || !mentions(is.Cond, "maxDataSize") || !isLEQ(is.Cond) {
+		// the decision is an if statement or a case of a tagless switch
+		var body *ast.BlockStmt
+		var at token.Pos
+		switch x := n.(type) {
+		case *ast.IfStmt:
+			if !mentions(x.Cond, "maxDataSize") || !isLEQ(x.Cond) {
+				return true
+			}
+			body, at = x.Body, x.Pos()
+		case *ast.CaseClause:
+			hit := false
+			for _, e := range x.List {
+				if mentions(e, "maxDataSize") && isLEQ(e) {
+					hit = true
+				}
+			}
+			if !hit {
+				return true
+			}
+			body, at = &ast.BlockStmt{Lbrace: x.Colon, List: x.Body, Rbrace: x.End()}, x.Pos()
+		default:
 			return true
 		}
+		type isT struct{ Body *ast.BlockStmt }
+		is := isT{body}
 		k++
 		g := cfg.New(is.Body, core.MayReturn)
 		ps := core.PathSpec{Info: info, CountA: func(n ast.Node) int {
@@ -331,9 +352,9 @@ func c13R3(p *core.Prog, r *core.Report) {
 		}
 		label := fmt.Sprintf("data branch#%d", k)
 		if bad {
-			r.Violated(rule, fname, label, p.Pos(is.Pos()), "a path through the 'carry inline data' branch neither stores freshly read bytes nor compares the existing data with them: stale inline data (e.g. of a layer rewritten to the same length) stays under the new digest")
+			r.Violated(rule, fname, label, p.Pos(at), "a path through the 'carry inline data' branch neither stores freshly read bytes nor compares the existing data with them: stale inline data (e.g. of a layer rewritten to the same length) stays under the new digest")
 		} else {
-			r.Held(rule, fname, label, p.Pos(is.Pos()), "every path stores fresh bytes or compares against them")
+			r.Held(rule, fname, label, p.Pos(at), "every path stores fresh bytes or compares against them")
 		}
 		return true
 	})
@@ -402,23 +423,30 @@ func c13R4(p *core.Prog, r *core.Report) {
 	const rule = "C13.R4"
 	r.Rule(rule, "pushed equals computed: the descriptor returned by BlobPut of a rewritten layer is compared with the computed digest and size; the mismatch edges return an error", 2)
 	// the layer walk: function of package mod that creates digesters and calls BlobPut
+	// the layer rewriter computes both the compressed and the uncompressed digest while writing; the
+	// upload and its verification may live in an unexported helper it calls
+	cands := map[*ssa.Function]bool{}
 	for _, fn := range pkgFuncs(p, "mod") {
-		var put *ssa.Call
 		nDigester := 0
 		core.Calls(fn, func(c ssa.CallInstruction) {
-			cal := core.Callee(c)
-			if cal == nil {
-				return
-			}
-			if core.IsModMethod(cal, ".", "RegClient", "BlobPut") {
-				put, _ = c.(*ssa.Call)
-			}
-			if cal.Name() == "Digester" {
+			if cal := core.Callee(c); cal != nil && cal.Name() == "Digester" {
 				nDigester++
 			}
 		})
-		// the layer rewriter computes both the compressed and the uncompressed digest while writing
-		if put == nil || nDigester < 2 {
+		if nDigester >= 2 {
+			for h := range core.Helpers(fn, 2) {
+				cands[h] = true
+			}
+		}
+	}
+	for _, fn := range sortedFuncs(cands) {
+		var put *ssa.Call
+		core.Calls(fn, func(c ssa.CallInstruction) {
+			if cal := core.Callee(c); cal != nil && core.IsModMethod(cal, ".", "RegClient", "BlobPut") {
+				put, _ = c.(*ssa.Call)
+			}
+		})
+		if put == nil {
 			continue
 		}
 		fname := p.FuncName(fn)
@@ -430,7 +458,8 @@ func c13R4(p *core.Prog, r *core.Report) {
 				if !isIf {
 					continue
 				}
-				bo, isB := ifi.Cond.(*ssa.BinOp)
+				cnd, pol := core.StripNot(ifi.Cond, true)
+				bo, isB := cnd.(*ssa.BinOp)
 				if !isB || (bo.Op != token.NEQ && bo.Op != token.EQL) {
 					continue
 				}
@@ -468,7 +497,7 @@ func c13R4(p *core.Prog, r *core.Report) {
 					continue
 				}
 				mismatch := b.Succs[0]
-				if bo.Op == token.EQL {
+				if (bo.Op == token.NEQ) != pol {
 					mismatch = b.Succs[1]
 				}
 				ok = true
